@@ -235,7 +235,8 @@ def write_replay(prop, obj):
 
 
 def write_evidence(ctx, proof, corr, violations, assumptions, extra_cov=None, level='proof'):
-    os.makedirs(os.path.join(VERIF, 'evidence'), exist_ok=True)
+    evdir = os.environ.get('VERIF_EVIDENCE_DIR') or os.path.join(VERIF, 'evidence')   # the mutant tools point this elsewhere
+    os.makedirs(evdir, exist_ok=True)
     cov = {
         'obligations': max(1, proof['obligations']),
         'discharged': proof['discharged'],
@@ -260,7 +261,7 @@ def write_evidence(ctx, proof, corr, violations, assumptions, extra_cov=None, le
         cov.update(extra_cov)
     ev = {'property_id': ctx.prop, 'tier': ctx.tier, 'seed': ctx.seed, 'level': level, 'coverage': cov,
           'assumptions': assumptions, 'wall_s': round(time.time() - ctx.t0, 2), 'violations': violations}
-    with open(os.path.join(VERIF, 'evidence', ctx.prop + '.json'), 'w') as f:
+    with open(os.path.join(evdir, ctx.prop + '.json'), 'w') as f:
         json.dump(ev, f, indent=1, default=repr)
     return ev
 
